@@ -49,6 +49,11 @@ def _make(ttb, case):
         w = np.array([0.0] + [2.0 + r for r in range(R - 1)])
     else:
         w = np.array([1.0 + r for r in range(R)][::-1])
+    sc = case.get("scale_col")
+    if sc:
+        # a badly scaled but perfectly regular component: a tiny (huge) factor column compensated by its weight
+        U[-1][:, 0] = np.where(U[-1][:, 0] == 0, 1.0, U[-1][:, 0]) * sc
+        w[0] = (w[0] if w[0] != 0 else 1.0) / sc
     return ttb.ktensor([u.copy() for u in U], w.copy()), U, w
 
 
@@ -62,6 +67,8 @@ def _cases(tier, rng):
             for w in ("ones", "mixed", "zero", "desc"):
                 for zc in (False, True):
                     yield dict(shape=list(shp), R=R, w=w, zero_col=zc, seed=rng.randrange(10**6))
+            for sc in (1e-20, 1e-300 ** 0.5, 1e18):
+                yield dict(shape=list(shp), R=R, w="mixed", zero_col=False, scale_col=sc, seed=rng.randrange(10**6))
 
 
 @check("c08.reparam", ["C08"], [
